@@ -172,10 +172,13 @@ def case_computed(draw):
         spec = {'operation': op, 'target': 'out%d' % i}
         if draw(st.booleans()):
             spec['target'] = {'name': 'out%d' % i, 'type': 'any'}
+        # (a later specification of the same call may read the field an earlier one has just produced)
+        prev_num = ['out0'] if (i == 1 and specs[0]['operation'] in ('sum', 'min', 'max', 'multiply') and draw(st.booleans())) else []
+        prev_any = ['out0'] if (i == 1 and specs[0]['operation'] in ('constant', 'join', 'format') and draw(st.booleans())) else []
         if op in NUM_OPS:
-            spec['source'] = draw(st.lists(st.sampled_from(num_names), min_size=1, max_size=3, unique=True))
+            spec['source'] = prev_num + draw(st.lists(st.sampled_from(num_names), min_size=1, max_size=3, unique=True))
         elif op == 'join':
-            spec['source'] = draw(st.lists(st.sampled_from(num_names + s_names), min_size=1, max_size=3, unique=True))
+            spec['source'] = prev_any + draw(st.lists(st.sampled_from(num_names + s_names), min_size=1, max_size=3, unique=True))
             spec['with'] = draw(st.sampled_from([',', '', ' - ', '|']))
         elif op == 'constant':
             spec['with'] = draw(st.one_of(gen.text_easy(), st.integers(0, 9)))
@@ -194,8 +197,9 @@ def case_computed(draw):
         for row in r['rows']:
             for spec in specs:
                 if spec['operation'] in ('avg', 'min', 'max', 'multiply'):
-                    if all(row[s] is None for s in spec['source']):
-                        row[spec['source'][0]] = 1
+                    own = [s for s in spec['source'] if s in row]          # (not the target of an earlier specification)
+                    if own and all(row[s] is None for s in own):
+                        row[own[0]] = 1
     return {'op': 'computed', 'pkg': pkg, 'targets': targets, 'sel': sel, 'specs': specs,
             'use_kw': len(specs) == 1 and draw(st.booleans()),
             'then': draw(st.sampled_from([None, None, 'rename', 'delete']))}
@@ -216,6 +220,9 @@ def case_find_replace(draw):
     pkg = []
     # a small pool shared by all string columns, so the same raw value shows up under several fields
     pool = draw(st.lists(gen.text_hard(6), min_size=1, max_size=3)) + [None]
+    if draw(st.integers(0, 3)) == 0:
+        # long cells: far more matches of one pattern than any small constant
+        pool += [draw(st.sampled_from(['a,b ' * 20, 'x1 y22 ' * 12, 'ab' * 25, ', '.join(str(i) for i in range(30))]))]
     for i in range(n_targets):
         rows = draw(gen.rows_for(flds, 0, 5, hard=True))
         for row in rows:
@@ -235,8 +242,10 @@ def case_find_replace(draw):
 
 
 def cases(tier):
-    return st.one_of(case_select_delete('select'), case_select_delete('delete'), case_rename(),
+    base = st.one_of(case_select_delete('select'), case_select_delete('delete'), case_rename(),
                      case_add_field(), case_computed(), case_find_replace())
+    # rows are dicts: the order of their keys need not be the order of the schema's fields
+    return st.tuples(base, st.sampled_from(['schema', 'schema', 'reversed', 'rotated'])).map(lambda t: dict(t[0], key_order=t[1]))
 
 
 # ------------------------------------------------------------------ callables library
@@ -443,7 +452,15 @@ def check(case, ctx):
     op = case['op']
     desc = gen.descriptor_of(pkg)
     tables = gen.tables_of(pkg)
-    classes = [op]
+    ko = case.get('key_order', 'schema')
+    if ko != 'schema':
+        def reorder(r):
+            ks = list(r)
+            ks = ks[::-1] if ko == 'reversed' else ks[1:] + ks[:1]
+            return {k: r[k] for k in ks}
+        pkg = [dict(r, rows=[reorder(x) for x in r['rows']]) for r in pkg]       # (model and code see the same rows)
+        tables = gen.tables_of(pkg)
+    classes = [op] + (['row-keys-in-%s-order' % ko] if ko != 'schema' else [])
     expected = {}
     reject = None
     for r in pkg:
